@@ -9,6 +9,7 @@ import json
 import os
 import shutil
 import subprocess
+import sys
 import tempfile
 from concurrent.futures import ThreadPoolExecutor
 
@@ -81,6 +82,11 @@ def thorough_hook(pid, evidence):
         "matrix": res,
         "note": "variants are applied to scratch copies of the current working tree and removed afterwards; this block is informational and cannot raise a violation",
     }
+    try:
+        u = subprocess.run([sys.executable, os.path.join(HERE, "selftest", "symtest.py")], capture_output=True, text=True, timeout=120)
+        cov["selftest"]["engine_unit_tests"] = (u.stdout.strip().splitlines() or ["no output"])[-1]
+    except Exception as e:
+        cov["selftest"]["engine_unit_tests"] = "not run: %s" % e
     cov["evaluations"] = cov.get("evaluations", 0) + len(res)
     print("selftest %s: %d/%d breaking variants killed, %d/%d refactoring twins silent" % (
         pid, cov["selftest"]["breaking_killed"], cov["selftest"]["breaking_total"], cov["selftest"]["twins_silent"], cov["selftest"]["twins_total"]))
